@@ -328,7 +328,7 @@ class C17(PropBase):
                 for _ in range(3 if quick else 40):
                     f = fig_ok(g(rng, mn, mx))
                     if f:
-                        out.append(self.mk_fmt(f[1], mn, mx, "%s@%d/%d" % (f[0], mn, mx)))
+                        out.append(self.mk_fmt(f[1], mn, mx, "%s@edge-scale" % f[0]))
         # zero figures (no journal: a zero posting is rejected; zeros of reports come from the journals below)
         for t in ["0", "0.0", "0.000", "-0", "-0.0000", "0." + "0" * 28]:
             for (mn, mx) in [(0, 0), (2, 2), (0, 28), (2, 7), (28, 28), (1, 3)]:
